@@ -843,6 +843,47 @@ func runFormatStructs(c *Ctx) {
 			{"Link", "*string", "Link"}, {"Size", "uint64", "Size"}, {"Height", "uint8", "Height"},
 			{"BranchFactor", "uint", "BranchFactor"}, {"NodeFormat", "string", "NodeFormat,omitempty"}})
 	}
+	// no custom JSON/Text codec on the published record types: with
+	// encoding/json such a method replaces the field-by-field encoding the
+	// layout clauses above describe
+	var recTypes []types.Type
+	var recNames []string
+	for _, n := range []string{"Root", "Node"} {
+		if nt := c.P.Named(ir.MastPath, n); nt != nil {
+			recTypes, recNames = append(recTypes, nt), append(recNames, n)
+		}
+	}
+	if sc := mastScope(c); sc != nil {
+		// the decoded intermediate of the two-stage JSON path, when it is a named type
+		if st, _, _ := stringNodeStruct(c); st != nil {
+			for _, name := range sc.Names() {
+				if tn, ok := sc.Lookup(name).(*types.TypeName); ok && !tn.IsAlias() {
+					if nt, ok := tn.Type().(*types.Named); ok && types.Identical(nt.Underlying(), st) && name != "Node" {
+						recTypes, recNames = append(recTypes, nt), append(recNames, name)
+					}
+				}
+			}
+		}
+	}
+	for i, t := range recTypes {
+		found := false
+		for _, recv := range []types.Type{t, types.NewPointer(t)} {
+			ms := types.NewMethodSet(recv)
+			for _, mn := range []string{"MarshalJSON", "UnmarshalJSON", "MarshalText", "UnmarshalText"} {
+				pkg := c.P.Pkgs[ir.MastPath].Types
+				if sel := ms.Lookup(pkg, mn); sel != nil {
+					if found {
+						continue
+					}
+					found = true
+					c.Violation(nil, c.P.Pos(sel.Obj().Pos()), recNames[i]+"."+mn, fmt.Sprintf("%s has a method %s: encoding/json uses it instead of the field-by-field encoding of the published layout, so records written by / for other releases are encoded or decoded differently (e.g. defaults pre-filled on decode change what an absent field means)", recNames[i], mn))
+				}
+			}
+		}
+		if !found {
+			c.OK(c.P.Pos(recTypes[i].(*types.Named).Obj().Pos()), recNames[i]+" has no custom JSON/Text codec", "no MarshalJSON/UnmarshalJSON/MarshalText/UnmarshalText in the method sets of T and *T", false)
+		}
+	}
 	// mastNode must keep embedding Node as its first field: the binary encoder and the v1 marshal input reach Key/Value/Link through it
 	if st := c.P.StructOf(ir.MastPath, "mastNode"); st == nil {
 		c.AnchorMissing("struct mastNode")
@@ -2146,6 +2187,41 @@ func resolveCounter(x ssa.Value, fn *ssa.Function, recv ssa.Value, depth int) (s
 	return resolveCounter(val, callee, nodeParam, depth+1)
 }
 
+// isFuncParamOrField: v is a function-typed parameter, or a function-typed
+// field of a struct the function received through a parameter (read directly
+// or through a local).
+func isFuncParamOrField(v ssa.Value) bool {
+	v = ir.ResolveCell(v)
+	if _, isSig := v.Type().Underlying().(*types.Signature); !isSig {
+		return false
+	}
+	if _, ok := v.(*ssa.Parameter); ok {
+		return true
+	}
+	b, _, ok := fxFieldLoad(v)
+	if !ok || b == nil {
+		return false
+	}
+	_, isParam := ir.ResolveCell(b).(*ssa.Parameter)
+	return isParam
+}
+
+func structHasFuncField(t types.Type) bool {
+	if p, ok := t.Underlying().(*types.Pointer); ok {
+		t = p.Elem()
+	}
+	st, ok := t.Underlying().(*types.Struct)
+	if !ok {
+		return false
+	}
+	for i := 0; i < st.NumFields(); i++ {
+		if _, isSig := st.Field(i).Type().Underlying().(*types.Signature); isSig {
+			return true
+		}
+	}
+	return false
+}
+
 // locateMarshalCall finds the call of the marshal function parameter with the
 // node as its only argument: in fn, or in a static in-repo helper (depth ≤ 2,
 // not the store function itself) that receives both the node and a function
@@ -2158,13 +2234,11 @@ func locateMarshalCall(root, fn *ssa.Function, recv *ssa.Parameter, env *fxEnv, 
 		if !ok || ci.Common().IsInvoke() || ir.Callee(ci.Common()) != nil {
 			continue
 		}
-		if p, ok := ir.ResolveCell(ci.Common().Value).(*ssa.Parameter); ok && len(ci.Common().Args) == 1 {
-			if _, isSig := p.Type().Underlying().(*types.Signature); isSig {
-				if mcall != nil {
-					return nil, nil, nil, nil, "the marshal callback is called more than once"
-				}
-				mcall = call
+		if len(ci.Common().Args) == 1 && isFuncParamOrField(ci.Common().Value) {
+			if mcall != nil {
+				return nil, nil, nil, nil, "the marshal callback is called more than once"
 			}
+			mcall = call
 		}
 	}
 	if mcall != nil {
@@ -2195,9 +2269,12 @@ func locateMarshalCall(root, fn *ssa.Function, recv *ssa.Parameter, env *fxEnv, 
 				nodeP = callee.Params[i]
 			}
 			if p, ok := ir.ResolveCell(a).(*ssa.Parameter); ok {
-				if _, isSig := p.Type().Underlying().(*types.Signature); isSig {
+				if _, isSig := p.Type().Underlying().(*types.Signature); isSig || structHasFuncField(p.Type()) {
 					hasFunc = true
 				}
+			}
+			if isFuncParamOrField(a) {
+				hasFunc = true
 			}
 		}
 		if nodeP == nil || !hasFunc {
@@ -2224,7 +2301,7 @@ func locateMarshalCall(root, fn *ssa.Function, recv *ssa.Parameter, env *fxEnv, 
 // satisfying isElem is nil (wantNil) / non-nil.
 func blockHasNil(b *ssa.BasicBlock, isElem func(ssa.Value) bool, wantNil bool) bool {
 	for _, f := range ir.FactsAt(b) {
-		if v, tnn, ok := ir.NilTest(f.Cond); ok && isElem(v) {
+		if v, tnn, ok := fxNilTest(f.Cond); ok && isElem(v) {
 			if (f.Truth == tnn) != wantNil {
 				return true
 			}
@@ -2244,7 +2321,7 @@ func edgeHasNil(from, to *ssa.BasicBlock, isElem func(ssa.Value) bool, wantNil b
 	if !ok || from.Succs[0] == from.Succs[1] {
 		return false
 	}
-	v, tnn, ok := ir.NilTest(iff.Cond)
+	v, tnn, ok := fxNilTest(iff.Cond)
 	if !ok || !isElem(v) {
 		return false
 	}
@@ -2273,6 +2350,23 @@ func flushMarshalClosure(c *Ctx) (*ssa.Function, *ssa.Function) {
 			}
 			if f := fxRealFunc(ir.ResolveCell(a)); f != nil && fxIfaceParam(f) != nil {
 				return f, flush
+			}
+		}
+		// the arguments bundled in a struct built here: the function stored
+		// into one of its fields
+		for _, a := range ci.Common().Args {
+			al, ok := ir.ResolveCell(a).(*ssa.Alloc)
+			if !ok {
+				continue
+			}
+			fs, _ := fxStructStores(al)
+			for _, s := range fs {
+				if _, isSig := s.Val.Type().Underlying().(*types.Signature); !isSig {
+					continue
+				}
+				if f := fxRealFunc(ir.ResolveCell(s.Val)); f != nil && fxIfaceParam(f) != nil {
+					return f, flush
+				}
 			}
 		}
 	}
@@ -2423,8 +2517,16 @@ func runFormatV1Input(c *Ctx) {
 	if fn == nil {
 		return
 	}
+	// the closure may look the format up in a table of {format, marshal,
+	// unmarshal} entries and call the entry's marshal function: judge that
+	// function for each format
+	fnV1, fnBin := fn, fn
+	if g1, g2, ok := tableMarshalFns(c, fn); ok {
+		fnV1, fnBin = g1, g2
+	}
 	// v1marshaler
 	{
+		fn := fnV1
 		construct := "v1marshaler input"
 		as := nodeFormatAssume(c, fn, frozenV1, assertOK("mastNode"))
 		reach := as.reach(fn.Blocks[0])
@@ -2479,6 +2581,7 @@ func runFormatV1Input(c *Ctx) {
 	}
 	// v1.1.5binary
 	{
+		fn := fnBin
 		construct := "v1.1.5binary encoder"
 		enc := c.MustFunc("marshalMastNode")
 		as := nodeFormatAssume(c, fn, frozenV115, assertOK("mastNode"))
@@ -2640,3 +2743,186 @@ func runEmitGrammar(c *Ctx) {
 }
 
 const frozenVarintScratch = 8
+
+// tableMarshalFns: fn returns entry.F(…) where entry is the result of a
+// table-lookup function; returns the functions the table's entries for the
+// two published formats hold in field F.
+func tableMarshalFns(c *Ctx, fn *ssa.Function) (v1, bin *ssa.Function, ok bool) {
+	for _, r := range ir.Returns(fn) {
+		if len(r.Results) == 0 {
+			continue
+		}
+		call, _ := fxCallOf(r.Results[0])
+		if call == nil || call.Call.IsInvoke() || ir.Callee(call.Call) != nil {
+			continue
+		}
+		// the callee value: field F of a lookup's result
+		var field string
+		var src ssa.Value
+		switch x := ir.ResolveCell(call.Call.Value).(type) {
+		case *ssa.Field:
+			field, src = fxFieldNameOf(x.X.Type(), x.Field), x.X
+		case *ssa.UnOp:
+			if fa, isFA := x.X.(*ssa.FieldAddr); isFA && x.Op == token.MUL {
+				field, src = fxFieldNameOf(fa.X.Type(), fa.Field), fa.X
+				if al, isAl := src.(*ssa.Alloc); isAl && al.Referrers() != nil {
+					for _, rf := range *al.Referrers() {
+						if s, isS := rf.(*ssa.Store); isS && s.Addr == ssa.Value(al) {
+							src = s.Val
+						}
+					}
+				}
+			}
+		}
+		if src == nil {
+			continue
+		}
+		lk, idx := fxCallOf(ir.ResolveCell(src))
+		if lk == nil || idx != 0 {
+			continue
+		}
+		L := ir.Callee(lk.Call)
+		if L == nil || !fxOwnFunc(L) {
+			continue
+		}
+		for _, b := range L.Blocks {
+			if len(b.Instrs) == 0 {
+				continue
+			}
+			iff, isIf := b.Instrs[len(b.Instrs)-1].(*ssa.If)
+			if !isIf {
+				continue
+			}
+			bin2, isBin := iff.Cond.(*ssa.BinOp)
+			if !isBin {
+				continue
+			}
+			for _, side := range []ssa.Value{bin2.X, bin2.Y} {
+				t, ff := tableFieldOf(side)
+				if t == nil {
+					continue
+				}
+				entries, okT := parseCodecTable(t)
+				if !okT {
+					continue
+				}
+				for _, e := range entries {
+					name, okN := fxStringOf(c.P, e[ff])
+					g := fxRealFunc(ir.ResolveCell(e[field]))
+					if !okN || g == nil {
+						continue
+					}
+					switch name {
+					case frozenV1:
+						v1 = g
+					case frozenV115:
+						bin = g
+					}
+				}
+				if v1 != nil && bin != nil {
+					return v1, bin, true
+				}
+			}
+		}
+	}
+	return nil, nil, false
+}
+
+// fxNilTest is ir.NilTest extended by the classification idiom: a private
+// helper H(x) that maps the nil value to one constant and everything else to
+// other constants; `H(x)#0 == K_nil` is then a nil test of x.
+func fxNilTest(cond ssa.Value) (v ssa.Value, trueMeansNonNil bool, ok bool) {
+	if v, t, ok := ir.NilTest(cond); ok {
+		return v, t, true
+	}
+	neg := false
+	for {
+		u, isU := cond.(*ssa.UnOp)
+		if !isU || u.Op != token.NOT {
+			break
+		}
+		neg = !neg
+		cond = u.X
+	}
+	bin, isB := cond.(*ssa.BinOp)
+	if !isB || (bin.Op != token.EQL && bin.Op != token.NEQ) {
+		return nil, false, false
+	}
+	for _, pr := range [][2]ssa.Value{{bin.X, bin.Y}, {bin.Y, bin.X}} {
+		k := fxConst(pr[1])
+		call, idx := fxCallOf(pr[0])
+		if k == nil || call == nil || idx != 0 || len(call.Call.Args) != 1 {
+			continue
+		}
+		h := ir.Callee(call.Call)
+		if h == nil || !fxOwnFunc(h) {
+			continue
+		}
+		kn, okN := nilClassOf(h)
+		if !okN || kn.Kind() != k.Kind() || !constant.Compare(kn, token.EQL, k) {
+			continue
+		}
+		t := bin.Op == token.NEQ
+		if neg {
+			t = !t
+		}
+		return call.Call.Args[0], t, true
+	}
+	return nil, false, false
+}
+
+// nilClassOf: h(x) returns, as result #0, constant K exactly when x is nil:
+// on the path where x == nil every return yields K, and no other return does.
+func nilClassOf(h *ssa.Function) (constant.Value, bool) {
+	if len(h.Params) != 1 {
+		return nil, false
+	}
+	p := h.Params[0]
+	isP := func(v ssa.Value) bool { return fxStripNoConv(v) == ssa.Value(p) }
+	mk := func(isNil bool) *fxAssume {
+		return &fxAssume{decide: func(cond ssa.Value) (bool, bool) {
+			if v, tnn, ok := ir.NilTest(cond); ok && isP(v) {
+				return tnn != isNil, true
+			}
+			// a type assertion of a nil interface fails
+			if e, ok := cond.(*ssa.Extract); ok && e.Index == 1 && isNil {
+				if ta, ok := e.Tuple.(*ssa.TypeAssert); ok && isP(ta.X) {
+					return false, true
+				}
+			}
+			return false, false
+		}}
+	}
+	var kn constant.Value
+	asNil := mk(true)
+	reach := asNil.reach(h.Blocks[0])
+	for _, r := range ir.Returns(h) {
+		if !reach[r.Block()] || len(r.Results) == 0 {
+			continue
+		}
+		for _, l := range asNil.leaves(r.Results[0], reach) {
+			k := fxConst(l)
+			if k == nil || (kn != nil && !constant.Compare(kn, token.EQL, k)) {
+				return nil, false
+			}
+			kn = k
+		}
+	}
+	if kn == nil {
+		return nil, false
+	}
+	asNon := mk(false)
+	reach = asNon.reach(h.Blocks[0])
+	for _, r := range ir.Returns(h) {
+		if !reach[r.Block()] || len(r.Results) == 0 {
+			continue
+		}
+		for _, l := range asNon.leaves(r.Results[0], reach) {
+			k := fxConst(l)
+			if k == nil || (k.Kind() == kn.Kind() && constant.Compare(kn, token.EQL, k)) {
+				return nil, false
+			}
+		}
+	}
+	return kn, true
+}
